@@ -136,8 +136,17 @@ pub fn jobs(thorough: bool) -> (Vec<Job>, Vec<CrateSpec>) {
 
 pub fn run_job(j: &Job, target_dir: &str) -> (bool, String) {
     let mut cmd = Command::new("cargo");
-    cmd.current_dir("/repo").env("CARGO_TARGET_DIR", target_dir).env("CARGO_NET_OFFLINE", "true").env("CARGO_TERM_COLOR", "never");
-    cmd.args(["check", "--offline", "--quiet", "-p", &j.krate]);
+    cmd.current_dir("/repo").env("CARGO_TARGET_DIR", target_dir).env("CARGO_NET_OFFLINE", "true").env("CARGO_TERM_COLOR", "never")
+        // what distinguishes the two profiles for this property is cfg(debug_assertions) and what
+        // gets type-checked / instantiated, not optimisation: keep the artefacts small and quick
+        .env("CARGO_PROFILE_RELEASE_OPT_LEVEL", "0")
+        .env("CARGO_PROFILE_RELEASE_DEBUG", "0")
+        .env("CARGO_PROFILE_DEV_DEBUG", "0")
+        .env("CARGO_INCREMENTAL", "0");
+    // the library is really built (type checking alone does not evaluate what is only decided at
+    // monomorphisation: inline `const { assert!(..) }` blocks, associated consts of generic impls);
+    // examples are type-checked
+    cmd.args([if j.examples { "check" } else { "build" }, "--offline", "--quiet", "-p", &j.krate]);
     if j.all_features {
         cmd.arg("--all-features");
     } else if let Some(f) = &j.features {
